@@ -59,8 +59,12 @@ def make_ops(rng, cfg, profile, tier):
                 ops.append({'op': 'ESTIMATE_ALL', 'a': [rng.randrange(1 << 16)]})
             elif r < 0.72:
                 ops.append({'op': 'QUICK', 'a': [rng.choice(ALGOS), rng.random() < 0.5]})
-            elif r < 0.75:
+            elif r < 0.74:
                 ops.append({'op': 'RECYCLE_FIXED', 'a': [rng.randrange(64), round(rng.uniform(-0.5, 0.5), 2)]})
+            elif r < 0.76:
+                ops.append({'op': 'RECYCLE_PREFIX', 'a': [rng.randrange(64), rng.randrange(1 << 16)]})
+            elif r < 0.79:
+                ops.append({'op': 'CHANGE_INIT_KEPT', 'a': [rng.randrange(64), rng.randrange(1 << 16)]})
             elif r < 0.9:
                 ops.append({'op': 'LLD', 'a': [rng.randrange(64), rng.randrange(1 << 16), rng.random() < 0.3, True, True]})
             else:
@@ -356,6 +360,7 @@ class Session:
         kind, a = op['op'], op['a']
         ctx.count('op:' + kind)
         np = self.np
+        self._check_kept()
         if self.cfg.get('panel') and kind in ('PARTS', 'PER_OBS', 'SIM', 'H_NULL', 'SPLIT_PARTS', 'EXTRACT_PARTS', 'ROW_PARTS', 'REMOVE_REBUILD'):
             # cross-sectional comparisons: replaced by a plain evaluation on panel data
             kind, a = 'LLD', [a[0] if kind != 'PARTS' else 0, (a[1] if len(a) > 1 else a[0]) % 5, False, True, True]
@@ -710,6 +715,40 @@ class Session:
                     ctx.fail('I07.writeback', f'recycled estimation changed the fixed parameter {nm_} from {a[1]!r} to '
                                               f'{beta_obj.initValue!r} (status {beta_obj.status})')
                 ctx.log(kind, nm_, a[1])
+        elif kind == 'RECYCLE_PREFIX':
+            # two models saved in one directory, the name of one being the beginning of the name of the other: recycling
+            # the results of the first one returns ITS results (the reported log likelihood is the likelihood of its own
+            # formula at the returned estimates)
+            if self.N < 4:
+                ctx.log(kind, 'skip')
+            else:
+                half = self.table.iloc[: self.N // 2].reset_index(drop=True)
+                rec_o = self.make_object(1, None, table=half)
+                self.objects.pop()
+                rec_m = self.make_object(1, None)
+                self.objects.pop()
+                for rec_, nm_ in ((rec_m, 'rp'), (rec_o, 'rp_bis'), (rec_o, 'rp2')):
+                    b_ = rec_['b']
+                    b_.modelName = nm_
+                    b_.biogeme_parameters.set_value('generate_pickle', True)
+                    b_.biogeme_parameters.set_value('optimization_algorithm', 'simple_bounds')
+                    b_.estimate()
+                rec_m['b'].modelName = 'rp'
+                r_ = rec_m['b'].estimate(recycle=True)
+                est_ = {n: float(v) for n, v in r_.get_beta_values().items()}
+                want_, _, _ = self.ref_ll({n: est_[n] for n in self.names}, rec_m['table'])
+                self._cmp('recycled estimation: reported log likelihood vs the likelihood of the model at the returned estimates',
+                          float(r_.data.logLike), want_, rel=1e-7, oracle='I07.recompute')
+                ctx.probe('recycling next to a model whose name extends this one')
+                ctx.log(kind)
+        elif kind == 'CHANGE_INIT_KEPT':
+            # the results of an estimation are a record: later by-name changes of the starting values of the object that
+            # produced them do not alter them (checked for every kept record at the start of every operation)
+            if self.objects:
+                rec = self.objects[a[0] % len(self.objects)]
+                rec['b'].change_init_values(self.point(a[1]))
+                self._check_kept()
+            ctx.log(kind)
         else:
             raise RuntimeError(f'unknown op {kind}')
         ctx.state([kind, len(self.objects), sorted(map(str, self.settings))[:40], len(self.memo)])
@@ -820,7 +859,23 @@ class Session:
                                                                                'Number of iterations') if k_ in msgs})
         ctx.log('ESTIMATE', algo, boot, fhex(r.data.logLike), bool(r.algorithm_has_converged()))
         rec['estimated'] = True
+        if not hasattr(self, 'kept_results'):
+            self.kept_results = []
+        self.kept_results.append({'r': r, 'algo': algo, 'betas': dict(est), 'vec': [float(v) for v in r.data.betaValues],
+                                  'll': float(r.data.logLike), 'g': [float(v) for v in np.asarray(r.data.g).ravel()]})
+        self.kept_results = self.kept_results[-4:]
         return r
+
+    def _check_kept(self):
+        np = self.np
+        for k_ in getattr(self, 'kept_results', []):
+            r = k_['r']
+            now = {n: float(v) for n, v in r.get_beta_values().items()}
+            if now != k_['betas'] or [float(v) for v in r.data.betaValues] != k_['vec'] or float(r.data.logLike) != k_['ll'] \
+                    or [float(v) for v in np.asarray(r.data.g).ravel()] != k_['g']:
+                self.ctx.fail('I07.record', f"the results of an earlier estimation [{k_['algo']}] changed afterwards: estimates "
+                                            f"{k_['betas']} -> {now}, values {k_['vec']} -> {[float(v) for v in r.data.betaValues]}, "
+                                            f"log likelihood {k_['ll']!r} -> {float(r.data.logLike)!r}")
 
     def _stationary(self, algo, x, table, f, f0=None, said=None, eps=1.220703125e-4):
         ctx = self.ctx
